@@ -70,6 +70,10 @@ CLAIMED = {
          "Exploration. Forests of 1-3 units with both tag categories, in-unit/cross-unit references in every form, cycles, references from expressions and location lists; for each required set the output must contain exactly the closure (required entries, ancestors, everything retained entries and the always-present unit roots refer to, member-like children of retained non-namespace entries), with original parents and attributes, no dangling reference, and conversion + write must succeed whenever the unfiltered conversion does.",
          "Trusts gimli's reader as observer and the assembler in harness/src/fullasm.rs (its output is cross-checked against the model before use). The member-like tag list is taken from the documented list in FilterUnitEntry::has_die_back_edge. Out-of-bounds references and split-unit filters are not generated.",
          "DESIGN.md §4 C19"),
+ 'C20': ("proptest random histories over reusable state (stateful testing: generated pools and operation sequences interpreted against fresh state as the reference model)",
+         "Exploration. UnwindContext reuse over pools of generated FDEs (incl. failing ones, 0/1/many initial rules, args_size) along all ordered pairs/triples and generated longer histories with partial evaluations, on heap and four fixed storages; one entry buffer across all entries and after failed reads; EntriesTree::root after partial traversals; clones of cursors / line rows / unit-header iterators at every position; Dwarf::unit under every abbreviation cache strategy incl. shared and invalid abbreviation offsets. Every result must equal the result on fresh state.",
+         "Fresh state is the oracle (the same gimli code on new objects). List/CFI-entry/operation iterators are not cloned; their re-use is covered by C05/C07/C08 resume tests.",
+         "DESIGN.md §4 C20"),
 }
 NOT_YET = "check not built yet in this session (machinery is being extended property by property; see DESIGN.md §4)"
 
